@@ -409,7 +409,14 @@ def _harness(ctx, cfg):
                 cs.append(mapped == want)
             ctx.oblige("C15.segmentation_masks_exact", And(cs), "C15")
     elif op == "save":
-        ifmt.save_tracks(tr, _Dir())
+        import warnings
+
+        with warnings.catch_warnings():
+            warnings.simplefilter("ignore")
+            if ctx.choose(2, "save_entry_point") == 0:
+                ifmt.save_tracks(tr, _Dir())
+            else:
+                tr.save(_Dir())  # deprecated method wrapper
         ctx.tag("exported")
     elif op == "queries":
         run_queries(ctx, p)
@@ -434,6 +441,13 @@ def run_queries(ctx, p):
         tr.get_next_lineage_id()
         _ = tr.max_track_id
         _ = tr.track_id_to_node
+        import warnings
+
+        with warnings.catch_warnings():  # deprecated accessors are still public queries
+            warnings.simplefilter("ignore")
+            _ = tr.time_attr
+            _ = tr.pos_attr
+            _ = tr.node_id_to_track_id
         return
     if grp == 1:
         tr.get_track_neighbors(SInt(qk), SInt(qt))
@@ -458,6 +472,14 @@ def run_queries(ctx, p):
     tr.get_pixels(node)
     tr.in_degree(np.array([node]))
     tr.out_degree(np.array([node]))
-    for e in tr.graph.out_edges(node):
-        tr.get_edge_attr(e, "iou")
-        tr.get_edges_attr([e], "iou")
+    import warnings
+
+    with warnings.catch_warnings():
+        warnings.simplefilter("ignore")
+        tr.get_area(node)
+        tr.get_areas([node])
+        for e in tr.graph.out_edges(node):
+            tr.get_edge_attr(e, "iou")
+            tr.get_edges_attr([e], "iou")
+            tr.get_iou(e)
+            tr.get_ious([e])
